@@ -24,6 +24,8 @@ CALLS = []          # probe calls: {"thread", "applied", "inp", "seq"}
 EVALS = []          # fitness wrapper: {"thread", "x", "seq"}
 _LOCK = threading.Lock()
 _SEQ = [0]
+JOB = [0]           # recordings are tagged with the job that built the probe: threads that a failed
+                    # earlier job left running must not write into the recording of the next one
 
 
 def _next():
@@ -42,8 +44,9 @@ def calprobe(detector, _p=None, inp=0, **params):
         applied.append([float(x) for x in np.atleast_1d(np.asarray(v, dtype=float))])
     if p.get("inp_src") == "temperature":      # the input argument travels through a detector field
         inp = detector.environment.temperature - 100.0
-    CALLS.append({"thread": threading.get_ident(), "applied": applied, "inp": float(inp), "seq": _next(),
-                  "mem": detector._memory.get("cnt", -1)})
+    if p.get("job", JOB[0]) == JOB[0]:
+        CALLS.append({"thread": threading.get_ident(), "applied": applied, "inp": float(inp), "seq": _next(),
+                      "mem": detector._memory.get("cnt", -1)})
     detector._memory["cnt"] = detector._memory.get("cnt", 0) + 1
     flat = [x for a in applied for x in a]
     A, B = flat[0], sum(flat[1:]) + float(inp)
@@ -104,6 +107,7 @@ def make_calibration(kcfg, workdir, variant=0, algo=None, extra=None, **kw):
     args["inp"] = 0
     p = {"nv": nv}
     p.update(extra or {})
+    p["job"] = JOB[0]
     args["_p"] = p
     pipe = DetectionPipeline(photon_collection=[ModelFunction(func="harness.calib.calprobe", name="calprobe", arguments=args)])
     det = px.make_detector("ccd", kcfg["rows"], kcfg["cols"])
@@ -147,6 +151,7 @@ def _intval(v):
 def eval_job(job) -> dict:
     """Build the problem for kcfg and evaluate the fitness at integer decision vectors."""
     kcfg, xs, variant = job["kcfg"], job["xs"], job.get("variant", 0)
+    JOB[0] += 1
     wd = tempfile.mkdtemp(prefix="calib_", dir=os.environ.get("VERIF_WORK", px.VERIF + "/.work"))
     events = []
     try:
@@ -207,8 +212,12 @@ def calib_job(job) -> dict:
     events = []
     orig = ModelFittingDataTree.fitness
 
+    JOB[0] += 1
+    myjob = JOB[0]
+
     def wrapped(self, x):
-        EVALS.append({"thread": threading.get_ident(), "x": [float(v) for v in x], "seq": _next()})
+        if myjob == JOB[0]:
+            EVALS.append({"thread": threading.get_ident(), "x": [float(v) for v in x], "seq": _next()})
         return orig(self, x)
 
     try:
@@ -222,76 +231,80 @@ def calib_job(job) -> dict:
                 pygmo_seed=job.get("pygmo_seed", 11), pipeline_seed=job.get("pipeline_seed"),
                 num_islands=job.get("islands", 2), num_evolutions=job.get("evolutions", 2),
                 num_best_decisions=job.get("best", 2), topology=job.get("topology", "unconnected"))
-            before = {"mem": det._memory.get("cnt"), "args": repr(dict(pipe.photon_collection.models[0].arguments))}
-            ModelFittingDataTree.fitness = wrapped
-            failed = None
-            dkw = {}
-            if job.get("scheduler"):
-                dkw["scheduler"] = job["scheduler"]
-                if job.get("workers"):
-                    dkw["num_workers"] = job["workers"]
-            try:
-                with dask.config.set(**dkw):
-                    dt = pyxel.run_mode(cal, det, pipe)
-            except Exception as e:
-                failed = e
-            finally:
-                ModelFittingDataTree.fitness = orig
-            after = {"mem": det._memory.get("cnt"), "args": repr(dict(pipe.photon_collection.models[0].arguments))}
-            events.append({"e": "build", "out": "ok" if (failed is None or EVALS) else "rejected"})
-            npairs = len(kcfg["pairs"])
-            # candidates: pair each fitness() call with the probe calls of the same thread that follow it
-            calls_by_thread = {}
-            for c in CALLS:
-                calls_by_thread.setdefault(c["thread"], []).append(c)
-            cands = {}
-            evs = sorted(EVALS, key=lambda e: e["seq"])
-            for k, ev in enumerate(evs):
-                mine = [c for c in calls_by_thread.get(ev["thread"], []) if c["seq"] > ev["seq"]][:npairs]
-                nxt = [e2["seq"] for e2 in evs if e2["thread"] == ev["thread"] and e2["seq"] > ev["seq"]]
-                if nxt:
-                    mine = [c for c in mine if c["seq"] < nxt[0]]
-                if not mine:
-                    continue
-                params = [v for a in mine[0]["applied"] for v in a]
-                conv = all((abs(p - 10.0 ** x) <= 8 * np.spacing(10.0 ** x)) if kcfg["vars"][vj]["log"] else (p == x)
-                           for (p, x, vj) in zip(params, ev["x"], var_index(kcfg)))
-                key = tuple(ev["x"])
-                if key not in cands:
-                    cands[key] = True
-                    events.append({"e": "cand", "x": [scaled(v) for v in ev["x"]], "params": [scaled(v) for v in params],
-                                   "applied": [[scaled(v) for v in a] for a in mine[0]["applied"]], "convok": bool(conv),
-                                   "inps": [c["inp"] for c in mine], "mems": [c["mem"] for c in mine]})
-            meta = {"ncands": len(cands), "nevals": len(evs), "before": before, "after": after,
-                    "user_unchanged": before == after}
-            if failed is not None:
-                pe = px.project_exception(failed)
-                events.append({"e": "failed", "exc": pe["exc"], "msg": pe["msg"], "g": pe["g"], "name": pe["name"]})
-                return {"kind": "calib", "kcfg": scaled_cfg(kcfg), "events": events, "meta": meta,
-                        "case": {"kind": "calib", "job": job}}
-            # reported champions and best individuals
-            champ = dt["/champion"].to_dataset()
-            for isl in range(champ.sizes["island"]):
-                for evo in range(champ.sizes["evolution"]):
-                    x = [float(v) for v in champ["decision"].isel(island=isl, evolution=evo).values]
-                    prm = [float(v) for v in champ["parameters"].isel(island=isl, evolution=evo).values]
-                    fit = float(champ["fitness"].isel(island=isl, evolution=evo).values)
-                    events.append(report_event(kcfg, "champion", isl, evo, x, prm, fit, wd))
-            if "best" in dt.children:
-                best = dt["/best"].to_dataset()
-                for isl in range(best.sizes["island"]):
-                    for evo in range(best.sizes["evolution"]):
-                        for ind in range(best.sizes["individual"]):
-                            x = [float(v) for v in best["decision"].isel(island=isl, evolution=evo, individual=ind).values]
-                            prm = [float(v) for v in best["parameters"].isel(island=isl, evolution=evo, individual=ind).values]
-                            fit = float(best["fitness"].isel(island=isl, evolution=evo, individual=ind).values)
-                            events.append(report_event(kcfg, "best", isl, evo, x, prm, fit, wd))
-            # the returned simulated data of the last champions
-            meta["simulated"] = check_simulated(dt, kcfg, champ)
-            meta["champions"] = [[float(v) for v in champ["fitness"].isel(island=i).values] for i in range(champ.sizes["island"])]
-            meta["champion_x"] = [[float(v) for v in champ["decision"].isel(island=i, evolution=-1).values]
-                                  for i in range(champ.sizes["island"])]
-            events.append({"e": "done"})
+            # `repeat` > 1: the same calibration, detector and pipeline objects are run again (a session)
+            for rep in range(job.get("repeat", 1)):
+                if rep:
+                    events.append({"e": "rerun"})
+                    del CALLS[:], EVALS[:]
+                before = {"mem": det._memory.get("cnt"), "args": repr(dict(pipe.photon_collection.models[0].arguments))}
+                ModelFittingDataTree.fitness = wrapped
+                failed = None
+                dkw = {}
+                if job.get("scheduler"):
+                    dkw["scheduler"] = job["scheduler"]
+                    if job.get("workers"):
+                        dkw["num_workers"] = job["workers"]
+                try:
+                    with dask.config.set(**dkw):
+                        dt = pyxel.run_mode(cal, det, pipe)
+                except Exception as e:
+                    failed = e
+                finally:
+                    ModelFittingDataTree.fitness = orig
+                after = {"mem": det._memory.get("cnt"), "args": repr(dict(pipe.photon_collection.models[0].arguments))}
+                events.append({"e": "build", "out": "ok" if (failed is None or EVALS) else "rejected"})
+                npairs = len(kcfg["pairs"])
+                # candidates: pair each fitness() call with the probe calls of the same thread that follow it
+                calls_by_thread = {}
+                for c in CALLS:
+                    calls_by_thread.setdefault(c["thread"], []).append(c)
+                cands = {}
+                evs = sorted(EVALS, key=lambda e: e["seq"])
+                for k, ev in enumerate(evs):
+                    mine = [c for c in calls_by_thread.get(ev["thread"], []) if c["seq"] > ev["seq"]][:npairs]
+                    nxt = [e2["seq"] for e2 in evs if e2["thread"] == ev["thread"] and e2["seq"] > ev["seq"]]
+                    if nxt:
+                        mine = [c for c in mine if c["seq"] < nxt[0]]
+                    if not mine:
+                        continue
+                    params = [v for a in mine[0]["applied"] for v in a]
+                    conv = all((abs(p - 10.0 ** x) <= 8 * np.spacing(10.0 ** x)) if kcfg["vars"][vj]["log"] else (p == x)
+                               for (p, x, vj) in zip(params, ev["x"], var_index(kcfg)))
+                    key = tuple(ev["x"])
+                    if key not in cands:
+                        cands[key] = True
+                        events.append({"e": "cand", "x": [scaled(v) for v in ev["x"]], "params": [scaled(v) for v in params],
+                                       "applied": [[scaled(v) for v in a] for a in mine[0]["applied"]], "convok": bool(conv),
+                                       "inps": [c["inp"] for c in mine], "mems": [c["mem"] for c in mine]})
+                meta = {"ncands": len(cands), "nevals": len(evs), "before": before, "after": after,
+                        "user_unchanged": before == after}
+                if failed is not None:
+                    pe = px.project_exception(failed)
+                    events.append({"e": "failed", "exc": pe["exc"], "msg": pe["msg"], "g": pe["g"], "name": pe["name"]})
+                    break
+                # reported champions and best individuals
+                champ = dt["/champion"].to_dataset()
+                for isl in range(champ.sizes["island"]):
+                    for evo in range(champ.sizes["evolution"]):
+                        x = [float(v) for v in champ["decision"].isel(island=isl, evolution=evo).values]
+                        prm = [float(v) for v in champ["parameters"].isel(island=isl, evolution=evo).values]
+                        fit = float(champ["fitness"].isel(island=isl, evolution=evo).values)
+                        events.append(report_event(kcfg, "champion", isl, evo, x, prm, fit, wd))
+                if "best" in dt.children:
+                    best = dt["/best"].to_dataset()
+                    for isl in range(best.sizes["island"]):
+                        for evo in range(best.sizes["evolution"]):
+                            for ind in range(best.sizes["individual"]):
+                                x = [float(v) for v in best["decision"].isel(island=isl, evolution=evo, individual=ind).values]
+                                prm = [float(v) for v in best["parameters"].isel(island=isl, evolution=evo, individual=ind).values]
+                                fit = float(best["fitness"].isel(island=isl, evolution=evo, individual=ind).values)
+                                events.append(report_event(kcfg, "best", isl, evo, x, prm, fit, wd))
+                # the returned simulated data of the last champions
+                meta["simulated"] = check_simulated(dt, kcfg, champ)
+                meta["champions"] = [[float(v) for v in champ["fitness"].isel(island=i).values] for i in range(champ.sizes["island"])]
+                meta["champion_x"] = [[float(v) for v in champ["decision"].isel(island=i, evolution=-1).values]
+                                      for i in range(champ.sizes["island"])]
+                events.append({"e": "done"})
             return {"kind": "calib", "kcfg": scaled_cfg(kcfg), "events": events, "meta": meta,
                     "case": {"kind": "calib", "job": job}}
     finally:
